@@ -187,9 +187,17 @@ def sampleMap : MapPkt :=
 def samplePli : PliPkt :=
   ⟨.addPlayer, [.addPlayer sampleUuid "ab" [⟨"n", "v", some "s"⟩] 1 20 (some "hi")]⟩
 
-def sampleSpawn : SpawnPkt := ⟨1, some sampleUuid, 5, 1, 2, 3, 0, 0, 1, some 1, some 2, some 3⟩
+/-- coordinates 1, 2, 3: as `Integer`s before protocol 100, as the IEEE patterns of the `Double`s
+1.0, 2.0, 3.0 from there on; pitch 90° and yaw 180° as the `Angle` steps 64 and 128 -/
+def sampleSpawn (f : SpawnFlags) : SpawnPkt :=
+  if f.v100 then
+    ⟨1, some sampleUuid, 5, 0x3FF0000000000000, 0x4000000000000000, 0x4008000000000000, 64, 128, 1,
+     some 1, some 2, some 3⟩
+  else ⟨1, some sampleUuid, 5, 1, 2, 3, 64, 128, 1, some 1, some 2, some 3⟩
 
-def sampleFace : FacePkt := ⟨some 0, some 1, some 2, some 3, some 7, some 1⟩
+/-- target (1.0, 2.0, 3.0) as IEEE patterns -/
+def sampleFace : FacePkt :=
+  ⟨some 0, some 0x3FF0000000000000, some 0x4000000000000000, some 0x4008000000000000, some 7, some 1⟩
 
 /-- the sample packets of the generator's recording runs (`harness/gen/c05dispatch.py`,
 `hand_samples`), and for a field list the sample values of `Lemmas/LayoutTables.lean` -/
@@ -197,7 +205,7 @@ def sampleOf : Codec → PVal
   | .fields L => .fields (L.map fun f => sampleVal f.2)
   | .map _ => .map sampleMap
   | .pli => .pli samplePli
-  | .spawn _ => .spawn sampleSpawn
+  | .spawn f => .spawn (sampleSpawn f)
   | .combat _ => .combat (.dead 1 2 "x")
   | .face _ => .face sampleFace
   | .plug => .plug ⟨1, some true, some [0x61, 0x62]⟩
@@ -220,7 +228,7 @@ theorem sample_WF (k : Codec) (hok : k.admissible = true) (hn : k.hasNbt = false
   | pli => show PliWF samplePli; decide +kernel
   | spawn f =>
     obtain ⟨a, b, c⟩ := f
-    show SpawnWF _ sampleSpawn
+    show SpawnWF _ (sampleSpawn _)
     cases a <;> cases b <;> cases c <;> decide +kernel
   | combat f =>
     obtain ⟨a⟩ := f
